@@ -4,6 +4,7 @@ import NemoVerif.Models.V1Struct
 import NemoVerif.Models.V1Run
 import NemoVerif.Models.V1Mut
 import NemoVerif.Models.V1Ref
+import NemoVerif.Models.V1Annot
 import NemoVerif.Generated.LlmFlowsV1
 
 namespace NemoVerif.Drive.C14
@@ -57,6 +58,15 @@ partial def exprOfJson (j : Json) : Except String Expr := do
   else throw "bad expr"
 
 def optStrJ (j : Json) (k : String) : Option String := optStr j k
+
+def optIntToJson : Option Int → Json
+  | some i => Json.num (JsonNumber.fromInt i)
+  | none => .null
+
+def jsonOptInt (j : Json) : Option Int :=
+  match j.getInt? with
+  | .ok i => some i
+  | _ => none
 
 def optIntJ (j : Json) (k : String) : Option Int :=
   match j.getObjVal? k with
@@ -244,6 +254,12 @@ def actResOfJson (j : Json) : Except String ActRes := do
 def melemOfJson (j : Json) : Except String MElem := do
   pure { el := ← elemOfJson (← j.getObjVal? "el"), label := optStrJ j "label", activeLabel := optStrJ j "active" }
 
+def sresToJson : SRes → Json
+  | .at st h => Json.mkObj [("res", "at"), ("head", Json.num (JsonNumber.fromInt h)), ("ctx", ctxToJson st.ctx), ("upd", ctxToJson st.upd)]
+  | .fin st h => Json.mkObj [("res", "fin"), ("head", Json.num (JsonNumber.fromInt h)), ("ctx", ctxToJson st.ctx), ("upd", ctxToJson st.upd)]
+  | .err => Json.mkObj [("res", "err")]
+  | .oof => Json.mkObj [("res", "oof")]
+
 def handle (op : String) (j : Json) : Except String Json := do
   match op with
   | "follow" =>
@@ -298,17 +314,29 @@ def handle (op : String) (j : Json) : Except String Json := do
     pure (Json.mkObj [("res", Json.arr outs.toArray)])
   | "compile" =>
     let p ← progOfJson (← j.getObjVal? "prog")
+    -- "keys": `_next_on_break` / `_next_on_continue` of EVERY element as the annotation pass leaves them (V1Annot.compileA);
+    -- "compileA": its elements (theorem compile_annotated_projects: = "compile")
+    let ca := NemoVerif.V1Annot.compileA p
     pure (Json.mkObj [("compile", Json.arr ((compile p).map elemToJson).toArray),
-                      ("comp", Json.arr ((comp none p).map elemToJson).toArray)])
+                      ("comp", Json.arr ((comp none p).map elemToJson).toArray),
+                      ("compileA", Json.arr (ca.map (fun a => elemToJson a.el)).toArray),
+                      ("keys", Json.arr (ca.map (fun a => Json.arr #[optIntToJson a.brk, optIntToJson a.cnt])).toArray)])
   | "slide" =>
     let es ← (← (← j.getObjVal? "elems").getArr?).toList.mapM elemOfJson
     let ctx ← ctxOfJson (← j.getObjVal? "ctx")
     let head ← (← j.getObjVal? "head").getInt?
-    match slide SLIDE_FUEL es ⟨ctx, []⟩ head (initPrev es head) with
-    | .at st h => pure (Json.mkObj [("res", "at"), ("head", jInt h), ("ctx", ctxToJson st.ctx), ("upd", ctxToJson st.upd)])
-    | .fin st h => pure (Json.mkObj [("res", "fin"), ("head", jInt h), ("ctx", ctxToJson st.ctx), ("upd", ctxToJson st.upd)])
-    | .err => pure (Json.mkObj [("res", "err")])
-    | .oof => pure (Json.mkObj [("res", "oof")])
+    let plainRes := sresToJson (slide SLIDE_FUEL es ⟨ctx, []⟩ head (initPrev es head))
+    match j.getObjVal? "keys" with
+    | .ok (.arr ks) =>
+      -- the dicts with their loop keys: `slideA` reads them key by key; "plain" = the same slide without the keys
+      let keys ← ks.toList.mapM fun k => do
+        let a ← k.getArr?
+        if h : a.size = 2 then pure (jsonOptInt a[0], jsonOptInt a[1]) else throw "bad keys entry"
+      if keys.length ≠ es.length then throw "keys/elems length" else
+      let code : List NemoVerif.V1Annot.AElem := (es.zip keys).map fun (e, k) => { el := e, brk := k.1, cnt := k.2 }
+      let r := sresToJson (NemoVerif.V1Annot.slideA SLIDE_FUEL code ⟨ctx, []⟩ head (initPrev es head))
+      pure (r.setObjVal! "same_as_plain" (.bool (r.compress == plainRes.compress)))
+    | _ => pure plainRes
   | "exec" =>
     -- structured semantics: from the start of the block (no "addr") or after the step at "addr"
     let p ← progOfJson (← j.getObjVal? "prog")
